@@ -312,6 +312,8 @@ func cmdCheck(args []string) int {
 	violCount := 0
 	var knownSeen []string
 	reachOK := 0
+	perAssertPrinted := map[string]int{}
+	obsCompared := 0
 	var sampleViolations []string
 	for i, p := range pend {
 		out := replayOut[i]
@@ -321,6 +323,16 @@ func cmdCheck(args []string) int {
 			}
 			if strings.Contains(out, "REACH "+p.reach) {
 				reachOK++
+				// differential check of observed values (engine vs native)
+				for _, ob := range p.obl.ReachObs[p.reach] {
+					if strings.HasSuffix(ob, "=?") {
+						continue
+					}
+					obsCompared++
+					if !strings.Contains(out, "OBSERVE "+ob+"\n") {
+						inconAll = append(inconAll, fmt.Sprintf("%s: engine/native disagreement on observed value %s (native output: %s)", p.obl.Name, ob, obsLines(out)))
+					}
+				}
 			} else if replayFailed == "" {
 				inconAll = append(inconAll, fmt.Sprintf("%s: reach witness %s did not replay natively (%s)", p.obl.Name, p.reach, strings.TrimSpace(out)))
 			}
@@ -355,7 +367,8 @@ func cmdCheck(args []string) int {
 		// genuine, reproduced violation
 		path := e.saveReplay(prop, p.entry)
 		violCount++
-		if violCount <= 10 {
+		perAssertPrinted[p.obl.Name+"/"+v.AssertID]++
+		if perAssertPrinted[p.obl.Name+"/"+v.AssertID] <= 2 {
 			fmt.Printf("VIOLATION property=%s replay=%s\n", prop, path)
 			fmt.Printf("  obligation=%s assert=%s %s values=%v\n", p.obl.Name, v.AssertID, v.Detail, p.entry.Values)
 		}
@@ -363,6 +376,9 @@ func cmdCheck(args []string) int {
 			sampleViolations = append(sampleViolations, fmt.Sprintf("%s/%s %v", p.obl.Name, v.AssertID, p.entry.Values))
 		}
 		exit = 1
+	}
+	for k, n := range perAssertPrinted {
+		fmt.Printf("  violated assertion %s: %d reproduced counterexample(s)\n", k, n)
 	}
 	for _, r := range results {
 		for _, s := range r.Incon {
@@ -376,7 +392,7 @@ func cmdCheck(args []string) int {
 		exit = 2
 	}
 	if !*noEvidence {
-		writeEvidence(e, prop, *tier, seed, results, reachOK, replayed, violCount, knownSeen, inconAll, sampleViolations, time.Since(t0))
+		writeEvidence(e, prop, *tier, seed, results, reachOK, obsCompared, replayed, violCount, knownSeen, inconAll, sampleViolations, time.Since(t0))
 	}
 	switch exit {
 	case 0:
@@ -387,6 +403,16 @@ func cmdCheck(args []string) int {
 		}
 	}
 	return exit
+}
+
+func obsLines(out string) string {
+	var l []string
+	for _, x := range strings.Split(out, "\n") {
+		if strings.HasPrefix(x, "OBSERVE") {
+			l = append(l, x)
+		}
+	}
+	return strings.Join(l, "; ")
 }
 
 func firstLines(s string, n int) string {
